@@ -116,6 +116,11 @@ Expected(t) ==
    table |-> [k \in 1..Len(es) |->
                [name |-> Join(es[k].name), aliases |-> {Join(a) : a \in es[k].aliases}, file |-> es[k].origin[1], task |-> es[k].origin[2],
                 internal |-> es[k].internal, dir |-> es[k].dir, iv |-> es[k].iv,
+                \* an alias that several entries carry (two includes with the same namespace alias) names no single
+                \* task: requesting it is an error (203), not a silent choice; an exact task name always wins
+                ambiguous |-> {Join(a) : a \in {x \in es[k].aliases :
+                                  /\ \E j \in 1..Len(es) : j # k /\ x \in es[j].aliases
+                                  /\ \A j \in 1..Len(es) : es[j].name # x}},
                 deps |-> [j \in 1..Len(es[k].deps) |-> Join(es[k].deps[j].name)],
                 calls |-> [j \in 1..Len(es[k].calls) |-> Join(es[k].calls[j].name)]]]]
 
